@@ -85,12 +85,38 @@ NEEDS.update({
  "C19b-1": "v1marshaler top node with a non-empty but too short link list (guard weakened to > keys+1: padded with nil links, subtrees silently lost)",
  "C19b-2": "unknown NodeFormat together with an empty root or a top node already in the NodeCache (format validated only on the decode path)",
 })
+
+NEEDS.update({
+ "C01c-1": "v1marshaler + UnmarshalerUsesRegisteredTypes and a persisted leaf with exactly branchFactor entries being reloaded (capacity guard off by one: makeslice panics)",
+ "C01c-2": "v1.1.5binary and a count or length of exactly 128 (hand-rolled varint loop uses > 0x80)",
+ "C02c-1": "shared NodeCache, a left leaf created in memory and flushed (spare capacity), a Delete merging two children, then a further edit in the merged node before the next flush (append aliasing)",
+ "C02c-2": "a cursor held open across mutations of the tree it was opened on while that tree's root is a dirty in-memory node (Cursor() loads the source's root instead of the clone's)",
+ "C03c-1": "a tree with >= 2 levels of dirty nodes and a failing Store during MakeRoot, then use of the tree or a retry (links-by-name written into a shallow copy: the live node's links are overwritten)",
+ "C03c-2": "a NodeCache shared by two in-memory stores neither of which has been written to yet (NodeURLPrefix from the lazily allocated map: both are 0x0)",
+ "C05c-1": "NodeCache, a flush where a dirty node equals a cached node while its parent is new, then an unpersisted edit and a reload of the earlier root through the cache (cached nodes keep pointer links)",
+ "C05c-2": "two S3 stores on one bucket with different key prefixes sharing a cache, and a reader without the cache (NodeURLPrefix without the key prefix)",
+ "C07c-1": "a key with >= 16 layers as first key of a differing node that waits while the other tree is descended (dedup table bounded to 16 slots)",
+ "C07c-2": "a one-shot Load fault on a differing node while DiffLinks runs (unreadable node counted as already announced: silently missing from added/removed)",
+ "C12c-1": "a tree at its grow threshold, a new key whose layer exceeds the height, a Load fault during the following split (Insert grows first: height changed although the call failed)",
+ "C12c-2": "a persisted tree with some private in-memory paths, an insert of an upper-layer key whose split seam passes a private node with a store-only child, Load fault there (split truncates the private node in place)",
+ "C13c-1": "v1.1.5binary, no NodeCache: Clone of a loaded clean tree then MakeRoot on the unmodified clone re-writes the root (loaded nodes only marked shared when a cache is set)",
+ "C13c-2": "file store, re-storing content whose name already exists: a tmp-* copy stays in the directory (existence check moved before the rename, early return skips the cleanup)",
+ "C14c-1": "v1marshaler, grow from height >= 1 with two adjacent promoted keys and a child between them (nil slices marshal as null)",
+ "C14c-2": "int/int64 keys more than MaxInt64 apart under the default order (compare by subtraction)",
+ "C15c-1": "StartDiff/NextEntry on two loads of the same persisted version (StartDiff clones both trees, which loads the roots and breaks link equality)",
+ "C15c-2": "a cold NodeCache on the diffed trees and a changed layer>=1 key in a wide interior node (prefetch compares child links position by position)",
+ "C16c-1": "a persisted tree of exactly bf^height+1 entries and a Delete that fails (absent key / wrong value): the up-front shrink check loads every child of the top node",
+ "C16c-2": "a persisted tree of exactly bf^height+1 entries and an update of a present key (implemented as Delete+Insert: shrinks and grows back)",
+ "C19c-1": "loader with a NodeCache that already holds the top node, and a mismatching KeyCompare / Height / BranchFactor (checkRoot skipped on a cache hit)",
+ "C19c-2": "the first key of the top node is the only one whose layer is below the recorded height (first loop iteration skips the layer check)",
+ "C09c-1": "", "C09c-2": "",
+})
 V = os.path.dirname(os.path.dirname(os.path.abspath(__file__)))
 def first_lines(path):
     try: return " ".join(l.strip() for l in open(path).read().splitlines() if l.strip())[:600]
     except Exception: return ""
 out = []
-ROUNDS = [("/tmp/seedres", "/tmp/seedres1b", ""), ("/tmp/seedres2", "/tmp/seedres2b", "b")]
+ROUNDS = [("/tmp/seedres", "/tmp/seedres1b", ""), ("/tmp/seedres2", "/tmp/seedres2b", "b"), ("/tmp/seedres3", "/tmp/seedres3b", "c")]
 files = []
 for base, later, suffix in ROUNDS:
     names = set(os.path.basename(x) for x in glob.glob(base + "/C??-?.json")) | set(os.path.basename(x) for x in glob.glob(later + "/C??-?.json"))
